@@ -341,10 +341,10 @@ def parse_vspec(path, modules):
                 cur_fn.opts[k] = v
                 i += 1
             elif key == 'site':
-                m = re.match(r'(\d+)\s*:?\s*(\w+)$', rest)
+                m = re.match(r'(\w+)\s*:?\s*(\w+)$', rest)
                 if not m:
                     err('bad site', i)
-                cur_fn.sites[int(m.group(1))] = m.group(2)
+                cur_fn.sites[m.group(1)] = m.group(2)
                 i += 1
             elif key == 'lift':
                 # lift <closure ordinal> <fn name> (<params>) -> <ret>
